@@ -241,4 +241,51 @@ theorem flush_nonempty' (w : BioW) : w.flush ≠ [] := by
   simp only
   split <;> simp
 
+/-! ### Lblock length coding -/
+
+theorem lt_pow_floorLog2F : ∀ (f n : Nat), n ≤ f → n < 2 ^ (floorLog2F f n + 1) := by
+  intro f
+  induction f with
+  | zero => intro n h; have : n = 0 := by omega
+            subst this; decide
+  | succ f ih =>
+    intro n h
+    unfold floorLog2F
+    by_cases h1 : n ≤ 1
+    · simp only [h1, if_true]; omega
+    · simp only [h1, if_false]
+      have := ih (n / 2) (by omega)
+      have e : 2 ^ (1 + floorLog2F f (n / 2) + 1) = 2 * 2 ^ (floorLog2F f (n / 2) + 1) := by
+        rw [show 1 + floorLog2F f (n / 2) + 1 = (floorLog2F f (n / 2) + 1) + 1 by omega, Nat.pow_succ]; omega
+      rw [e]; omega
+
+theorem lt_pow_floorLog2 (n : Nat) : n < 2 ^ (floorLog2 n + 1) := lt_pow_floorLog2F n n (Nat.le_refl _)
+
+theorem two_pow_mono {a b : Nat} (h : a ≤ b) : 2 ^ a ≤ 2 ^ b := Nat.pow_le_pow_right (by decide) h
+
+/-- the Lblock rule makes the length field wide enough, and the decoder reads it back with the same state -/
+theorem lblock_roundtrip' (numLenBits dataLen newPasses : Nat) (rest : List Bool)
+    (hw : (encLen numLenBits dataLen newPasses).1 + floorLog2 newPasses ≤ 32) :
+    decLen numLenBits newPasses ((encLen numLenBits dataLen newPasses).2 ++ rest) =
+      some (dataLen, (encLen numLenBits dataLen newPasses).1, rest) ∧
+    dataLen < 2 ^ ((encLen numLenBits dataLen newPasses).1 + floorLog2 newPasses) := by
+  unfold encLen decLen at *
+  simp only [] at *
+  generalize hl : (if (numLenBits == 0) = true then 3 else numLenBits) = l at *
+  have hl3 : 1 ≤ l := by
+    rw [← hl]; split
+    · omega
+    · next h => simp at h; omega
+  generalize hinc : floorLog2 dataLen + 1 - (l + floorLog2 newPasses) = inc at *
+  have hwide : floorLog2 dataLen + 1 ≤ l + inc + floorLog2 newPasses := by omega
+  have hlt : dataLen < 2 ^ (l + inc + floorLog2 newPasses) :=
+    Nat.lt_of_lt_of_le (lt_pow_floorLog2 dataLen) (two_pow_mono hwide)
+  refine ⟨?_, hlt⟩
+  rw [List.append_assoc, comma_roundtrip']
+  simp only []
+  have c : (l + inc + floorLog2 newPasses == 0 || decide (l + inc + floorLog2 newPasses > 32)) = false := by
+    simp; omega
+  simp only [c, Bool.false_eq_true, if_false]
+  rw [bits_roundtrip' _ _ hlt]
+
 end J2k
